@@ -68,10 +68,13 @@ def expand_splits(path, tmpdir):
             gfile = os.path.join(tmpdir, '%s__%s.py' % (base, gname))
             pre_lines = '\n'.join('    ' + re.sub(r'\b%s\b' % re.escape(param), str(v), l) for l in pres)
             call = ', '.join(str(v) if a == param else a for a in args)
+            # the wrapper is a COPY of the lemma's body with the split parameter bound (not a call of the lemma: CrossHair
+            # enforces the contracts of callees and silently ignores paths on which a callee's postcondition fails)
+            body_src = '\n'.join('    ' + l for stmt in fn.body[1 if ast.get_docstring(fn) is not None else 0:] for l in ast.unparse(stmt).splitlines())
             code = ('import importlib.util, sys\n_spec = importlib.util.spec_from_file_location(%r, %r)\n_base = importlib.util.module_from_spec(_spec)\nsys.modules[_spec.name] = _base\n'
                     '_spec.loader.exec_module(_base)\nglobals().update({k: v for k, v in vars(_base).items() if not k.startswith("__")})\n\n\n'
-                    'def %s(%s) -> bool:\n    """\n%s\n    post: __return__\n    """\n    return _base.%s(%s)\n'
-                    % (base + '_base', path, gname, ', '.join('%s: int' % a for a in others), pre_lines, name, call))
+                    'def %s(%s) -> bool:\n    """\n%s\n    post: __return__\n    """\n    %s = %d\n%s\n'
+                    % (base + '_base', path, gname, ', '.join('%s: int' % a for a in others), pre_lines, param, v, body_src))
             open(gfile, 'w').write(code)
             line = code[:code.index('def ' + gname)].count('\n') + 2
             out.append((gfile, gname, line, tmo, '%s[%s=%d]' % (name, param, v)))
